@@ -272,6 +272,22 @@ def work(case):
     return res
 
 
+def struct_work(case):
+    """worker of the structure correspondence: the implementation side of one case (the real parse, the same with
+    validation off for the level-3 spellings, and the model's DOM with its opaque parts given to the real
+    sub-parsers)"""
+    import json
+    text, toks, struct, level = case
+    real = real_struct(text)
+    real_off = None
+    if level == 3 and not isinstance(real, tuple):
+        real_off = real_struct(text, validate=False)
+    mp = None
+    if struct is not None and struct.startswith('['):
+        mp = model_dom(json.loads(struct), toks)
+    return real, real_off, mp
+
+
 class C02(Check):
     id = 'C02'
     props_module = 'CssVerif.Props.C02'
@@ -280,25 +296,33 @@ class C02(Check):
                'cssutils/css/cssstyledeclaration.py', 'cssutils/css/property.py', 'cssutils/css/value.py',
                'cssutils/css/cssmediarule.py', 'cssutils/css/cssimportrule.py', 'cssutils/css/cssnamespacerule.py',
                'cssutils/css/csspagerule.py', 'cssutils/css/marginrule.py', 'cssutils/css/cssfontfacerule.py',
-               'cssutils/css/csscharsetrule.py', 'cssutils/css/cssunknownrule.py', 'cssutils/css/selectorlist.py',
+               'cssutils/css/csscharsetrule.py', 'cssutils/css/cssunknownrule.py', 'cssutils/css/cssvariablesrule.py',
+               'cssutils/css/cssvariablesdeclaration.py', 'cssutils/css/selectorlist.py',
                'cssutils/util.py', 'cssutils/helper.py', 'cssutils/tokenize2.py')
-    rule = ('(1) abstract sheets of the documented grammar (c02_gen: style, @media nested, @import, @namespace, @page with '
-            'margin boxes, @font-face, @charset, unknown at-rules, comments; CSS3 selectors; values of every component kind '
-            'incl. calc()) x structure-level spellings of Model/SheetSpec.lean (c02_struct: S/COMMENT gaps at every gap of '
-            'every statement, case + simple escapes of at-keywords / property names / priority, quote style and url() form of '
-            'strings, stand-alone and optional semicolons) at 5 levels x inner spellings of c02_gen; (2) the same abstract '
+    rule = ('(1) abstract sheets of the documented grammar (c02_gen: style, @media nested and named, @import plain and named, '
+            '@namespace, @variables (0-3 variables, c02_struct), @page with margin boxes, @font-face, @charset, unknown '
+            'at-rules, comments; CSS3 selectors; values of every component kind incl. calc()) x structure-level spellings of '
+            'Model/SheetSpec.lean (c02_struct: S/COMMENT gaps at every gap of every statement, case + simple escapes of '
+            'at-keywords / property names / variable names / priority, quote style and url() form of strings, stand-alone '
+            'and optional semicolons) at 5 levels x inner spellings of c02_gen, the level-3 ones parsed with validation off '
+            'as well; (1b) declaration blocks alone x 2 spellings x comment parsing on / off (tokens given to '
+            'CSSStyleDeclaration; CSSParser.parseStyle as oracle); (2) the same abstract '
             'sheets x canonical rendering + N random text spellings x parser options (metamorphic oracle); (3) generated '
             'strings for helper.normalize; (4) a corpus of past harness failures. non-trivial = distinct (abstract sheet, '
             'spelling) whose text differs from the canonical one')
 
     trusted_base = (
         'Model/Struct.lean (K2, by C04) + Model/AtRules.lean (setters of @import / @namespace / @font-face / @page / margin '
-        'box, @charset encoding) + Model/SheetSpec.lean (`projSheet`, `render`, `erase`): hand-written, tied to the code by '
+        'box / @variables on its fragment, @charset encoding, the name setters) + Model/ParseCfg.lean (the two parser '
+        'options) + Model/SheetSpec.lean (`projSheet`, `render`, `erase`): hand-written, tied to the code by '
         'the correspondence of this run on well-formed sheets: render(spelled sheet) = tokens of the real tokenizer on the '
         'text; projSheet(parseSheet(tokens)) = the abstract sheet = the projection of the real DOM',
         'selectors, values and media query lists are opaque: every theorem holds for every oracle that accepts them as '
         'written; in the correspondence the opaque token lists the model shows are given to the REAL Selector / '
         'PropertyValue / MediaList, so a difference can only come from the structure level',
+        'CSSVariablesDeclaration._setCssText is a ProdParser run that hands the token iterator to PropertyValue; it is '
+        'modelled on the fragment {S|COMMENT}* [IDENT gap ":" gap value (";"|end) gap]* (Model/AtRules.lean varsLoop), '
+        '`unmodelled` outside of it (stand-alone ";", missing ":", rejected value)',
         'MarginRule._setCssText is a ProdParser run; it is modelled on the fragment "@margin {S|COMMENT}* { tokens other '
         'than at-keywords / INVALID / EOF } }" (Model/AtRules.lean marginBody), `unmodelled` outside of it',
         'Model/Normalize.lean: hand model of cssutils.helper.normalize, differential testing over generated strings',
@@ -308,8 +332,10 @@ class C02(Check):
                    'token lists have EOF only as last token and single-character CHAR tokens (tokenizer invariant, checked '
                    'by the driver on every request)',
                    '`@charset`: whether the encoding names a codec stays with the oracle (O.atOk charsetSym)',
-                   'disabling validation changes nothing: decided on the implementation only (the model has no validate '
-                   'parameter)')
+                   'validate flag: Model/ParseCfg.lean lets it decide about the validation records only; premise checked on '
+                   'the table Gen/C02Validate.lean regenerated from the AST of the package (theorems flag_reads_harmless, '
+                   'flag_guards, validate_body_pure); cssutils.profile.validateWithProfile, called by Property.validate, is '
+                   'not scanned (C13)')
 
     def translate(self, ctx):
         """`MarginRule.margins` (the at-keywords that open a margin box) -> Gen/C02Margins.lean"""
@@ -332,12 +358,16 @@ class C02(Check):
                  '-- `MarginRule.margins`: the at-keywords that open a margin box inside @page',
                  'namespace CssVerif.Gen.C02',
                  'def margins : List (List Nat) := ['] + rows + [']', 'end CssVerif.Gen.C02', '']
-        return {'CssVerif/Gen/C02Margins.lean': '\n'.join(lines)}
+        from harness import c02_validate
+        return {'CssVerif/Gen/C02Margins.lean': '\n'.join(lines),
+                # every read of the `validating` flag in the package, with what it guards (Props: flag_reads_harmless)
+                'CssVerif/Gen/C02Validate.lean': c02_validate.gen_lean(ctx.repo)}
 
     def run(self, ctx):
         ctx.phase(self.run_corpus, ctx)
         ctx.phase(self.corr_normalize, ctx)
         ctx.phase(self.corr_struct, ctx)
+        ctx.phase(self.corr_block, ctx)
         ctx.phase(self.oracle, ctx)
 
     def search(self, ctx):
@@ -404,12 +434,28 @@ class C02(Check):
             lines.append('erase ' + x)
             lines.append('struct ' + (','.join('%s:%s' % (t[0], enc(t[1])) for t in toks) or '-'))
         out = ctx.driver(lines) if ctx.model_ok else [None] * len(lines)
+        # the implementation side runs in the process pool
+        impl = run_cases(struct_work, [(text, toks, out[3 * idx + 2], level)
+                                       for idx, ((_, level, _, _), text, toks) in enumerate(zip(cases, texts, toklists))],
+                         timeout=90.0)
         for idx, ((ast, level, seed, ss), text, toks) in enumerate(zip(cases, texts, toklists)):
             rendered, erased, struct = out[3 * idx: 3 * idx + 3]
             ctx.case(key=('struct', text), nontrivial=level > 0, kind='struct-l%d' % level,
                      sample={'text': text[:300]} if idx < 3 else None)
+            if any(v[0] == 'variables' for v in ss.get('variables', ())):
+                ctx.count('struct-with-@variables')
+            if any(i[0] == 'import' and i[6] for i in ss['imports']):
+                ctx.count('struct-with-named-@import')
+            if any(r[0] == 'media' and r[5] for r in ss['rules']):
+                ctx.count('struct-with-named-@media')
             want = S.erase(ss)
-            real = real_struct(text)
+            r = impl[idx][1]
+            if r[0] == 'hang':
+                ctx.violate('parsing a well-formed sheet returns a DOM', {'text': text}, {'hang_seconds': r[1]})
+                continue
+            if r[0] != 'ok':
+                raise RuntimeError('struct worker: %r on %r' % (r, text[:200]))
+            real, real_off, mp = r[1]
             if isinstance(real, tuple):
                 ctx.violate('parsing a well-formed sheet returns a DOM', {'text': text}, {'exception': real[1]})
                 continue
@@ -433,7 +479,13 @@ class C02(Check):
                 # abstract sheet says, or the model/driver is wrong
                 ctx.disagree('projSheet(parseSheet(tokenize text)) vs abstract sheet', inp, first_diff(got, want), None)
                 continue
-            mp = model_dom(model, toks)
+            if level == 3:
+                # the tie of `validate_irrelevant`: the same text parsed with validation off gives the same DOM
+                ctx.count('struct-validate-off')
+                if real_off != real:
+                    ctx.violate('disabling validation changes nothing in the DOM', {'text': text},
+                                {'first_difference': first_diff(real_off, real)})
+                    continue
             if mp != real and drop_rejected_margin_decls(mp) == real:
                 ctx.violate('the DOM has the declarations of every margin box', {'text': text},
                             {'first_difference': first_diff(real, mp)}, known='C02-margin-box-space-dropped')
@@ -444,6 +496,75 @@ class C02(Check):
                             'selectors and declarations (name, value, priority) of the source',
                             {'text': text, 'canonical': S.text(S.spell_sheet(ast, __import__('random').Random(0), 0, 0))},
                             {'first_difference': first_diff(real, mp)})
+
+    # -- declaration level: a block alone, comment parsing on and off ---------------------------------------
+    def corr_block(self, ctx):
+        """the tie of comments_off_block / comments_off_decl: a spelled declaration block (c02_struct.spell_block) is
+        tokenized with doComments on and off; the model's `projItems (parseDecls tokens)` must be the block's abstract
+        items (without the comment items when off) and must equal what the real CSSStyleDeclaration builds from the
+        same tokens.  Oracle: the public entry point CSSParser(parseComments=False).parseStyle must give the same."""
+        import json
+        import random
+        from lib.framework import enc
+        from cssutils.tokenize2 import Tokenizer
+        rng = ctx.sub_rng('c02-block')
+        cases = []
+        for i in range(ctx.n(150, 4000)):
+            decls = G.gen_decls(rng, 0, 4)
+            for level, inner in ((2, 2), (3, 4)):
+                sp = S.Sp(random.Random(rng.getrandbits(32)), level)
+                isp = G.Spelling(random.Random(rng.getrandbits(32)), inner)
+                b = S.spell_block(sp, isp, decls)
+                ds = [x[1] for x in b['items'] if x[0] == 'decl'] + ([b['last']] if b['last'] else [])
+                if not all(S.is_core(d['value']) for d in ds):
+                    ctx.count('block-not-core')
+                    continue
+                cases.append((level, b))
+        lines, toks_all = [], []
+        for level, b in cases:
+            text = S.t_block(b)
+            for comments in (True, False):
+                toks = list(Tokenizer(doComments=comments).tokenize(text))
+                toks_all.append((text, comments, toks))
+                lines.append('block ' + (','.join('%s:%s' % (S.mtype(t[0]), enc(t[1])) for t in toks) or '-'))
+        out = ctx.driver(lines) if ctx.model_ok else [None] * len(lines)
+        c = _cu()
+        for idx, ((level, b), ) in enumerate(zip(cases)):
+            want_on = S.e_block(b)
+            want_off = [dict(i, toks=[t for t in i['toks'] if t[0] != 'COMMENT']) if i['k'] == 'unknown' else i
+                        for i in want_on if i['k'] != 'comment']
+            for j, want in ((0, want_on), (1, want_off)):
+                text, comments, toks = toks_all[2 * idx + j]
+                o = out[2 * idx + j]
+                ctx.case(key=('block', text, comments), nontrivial=True, kind='block-comments-%s' % ('on' if comments else 'off'),
+                         sample={'text': text[:200]} if idx < 2 else None)
+                if o is None:
+                    continue
+                inp = {'block': text, 'parseComments': comments}
+                if not o.startswith('['):
+                    ctx.disagree('projItems(parseDecls tokens)', inp, want, o[:300])
+                    continue
+                model = json.loads(o)
+                got = model_abstract([{'k': 'fontface', 'items': model}], toks)[0]['items']
+                if got != want:
+                    ctx.disagree('projItems(parseDecls(tokenize block)) vs abstract items', inp, first_diff(got, want), None)
+                    continue
+                mp = model_dom([{'k': 'fontface', 'items': model}], toks)[0][1]
+                st = c.css.CSSStyleDeclaration()
+                st.cssText = iter(toks)
+                real = _real_items(st)
+                if mp != real:
+                    ctx.violate('a declaration block lists exactly the declarations that were written (name, value, '
+                                'priority)%s' % ('' if comments else ', without the comments when comment parsing is off'),
+                                inp, {'first_difference': first_diff(real, mp)})
+                    continue
+                if not comments:
+                    # the public entry point with the option
+                    pst = c.CSSParser(parseComments=False).parseStyle(text)
+                    if _real_items(pst) != real:
+                        ctx.violate('disabling comment parsing removes exactly the comments (CSSParser.parseStyle)', inp,
+                                    {'first_difference': first_diff(_real_items(pst), real)},
+                                    known='C02-parsestyle-keeps-comments' if '/*' in text else None)
 
     def corr_normalize(self, ctx):
         from cssutils import helper
@@ -556,6 +677,12 @@ class C02(Check):
 
     def known(self, ctx, finding):
         w = finding['witness']['data']
+        if finding['id'] == 'C02-parsestyle-keeps-comments':
+            c = _cu()
+            kept = c.CSSParser(parseComments=False).parseStyle(w['style'])
+            sheet = c.CSSParser(parseComments=False).parseString('a{%s}' % w['style'])
+            return any(i[0] == 'comment' for i in _real_items(kept)) and \
+                not any(i[0] == 'comment' for i in _real_items(sheet.cssRules[0].style))
         if finding['id'] == 'C02-margin-box-space-dropped':
             a = work({'texts': [(w['text'], True, True), (w['same_declaration_in_page_block'], True, True)]})
             if a[0][0] != 'ok' or a[1][0] != 'ok':
@@ -644,18 +771,22 @@ def _real_rules(rules):
             out.append(['namespace', r.prefix, r.namespaceURI])
         elif t == r.CHARSET_RULE:
             out.append(['charset', r.encoding])
+        elif t == r.VARIABLES_RULE:
+            # the mapping the DOM shows (public accessors), in declaration order: key -> value
+            vs = r.variables
+            out.append(['variables', [[k, norm_text(vs.getVariableValue(k))] for k in vs.keys()]])
         else:
             out.append(['other', t])
     return out
 
 
-def real_struct(text):
+def real_struct(text, validate=True):
     """structure-level projection of parseString(text), or ('RAISE', message)"""
     from lib.framework import time_limit, TimeLimit
     c = _cu()
     try:
         with time_limit(30):
-            sheet = c.CSSParser(fetcher=lambda url: None).parseString(text)
+            sheet = c.CSSParser(fetcher=lambda url: None, validate=validate).parseString(text)
     except TimeLimit:
         raise
     except Exception as e:
@@ -706,6 +837,8 @@ def model_abstract(model, toks):
                     'margins': [{'name': m['name'], 'items': [item(i) for i in m['items']]} for m in r['margins']]}
         if k == 'import':
             return {'k': 'import', 'href': r['href'], 'mq': tl(r['mq']) if r['mq'] is not None else None, 'name': r['name']}
+        if k == 'variables':
+            return {'k': 'variables', 'vars': [{'name': v['name'], 'value': tl(v['value'])} for v in r['vars']]}
         return r
 
     return [rule(r) for r in model]
@@ -784,6 +917,13 @@ def model_dom(model, toks, ns=None):
                 out.append(['namespace', dec(r['pfx']), dec(r['uri'])])
             elif k == 'charset':
                 out.append(['charset', dec(r['enc'])])
+            elif k == 'variables':
+                vs = []
+                for v in r['vars']:
+                    pv = css.PropertyValue()
+                    pv.cssText = tl(v['value'])
+                    vs.append([dec(v['name']), norm_text(pv.cssText) if pv.wellformed else None])
+                out.append(['variables', vs])
             else:
                 out.append(['other', r.get('kind')])
         return out
